@@ -16,6 +16,11 @@ def run(ctx):
                         "(add/sub/mul must be bit-exact); stable builds are compared bit for bit",
                         "Flocq's 4 standard-library axioms appear under the float theorems"]
     ctx.prove("Props/C02.v")
+    # tie 1 (translator): the kernels this property speaks about, regenerated from op_*.rs, ARE the model (Props/C02Gen.v);
+    # a difference is reported as broken and the correspondence runs below search for the concrete input
+    ctx.translate(steps=("kernels",))
+    ctx.prove("Props/C02Gen.v")
+
     symrun.run(ctx, kernels=KERNELS)
     thorough = ctx.tier == "thorough"
     exprun.run_property(ctx, "C:arith", "C02", ops=OPS,
